@@ -45,6 +45,7 @@ REVERTS = [
     ('F45-mpi-bit-count-truncated', 'e4348ba', {'C05': ['cast:<types::mpi::Mpi as ser::Serialize>::to_writer:u16#1']}),
     ('F47-read-again-after-error-panics', 'fc88375', {'C04': ['poison:returns-error:<armor::reader::Dearmor<R> as std::io::Read>::read:Part::Temp#1', 'poison:returns-error:composed::message::reader::literal::LiteralDataReader::<R>::fill_inner:via:is_done#1']}),
     ('F48-aead-decryptor-no-error-latch', 'a114df8', {'C03': ['v2:sticky-error'], 'C09': ['v2:sticky-error']}),
+    ('F49-trailing-padding-buffered', '68e0845', {'C19': ["S19-5:buffer-read-is-used:composed::message::types::MessageReader::<'_>::check_trailing_data::check_next_packet#1"]}),
     ('F23-boolean-subpackets', '1b5ba7a', {'C05': ['S05-8:lossless-bool'], 'C02': ['S05-8:lossless-bool']}),
 ]
 tests = [dict(name='revert:' + n, kind='revert-fix', commit=c, expect=e) for n, c, e in REVERTS]
